@@ -37,12 +37,47 @@ REVIEWED: dict[str, str] = {
         "keyed mapping name -> dependencies; its only consumer is "
         "compute_topological_order(dag, key=...), which breaks ties by key",
     # ---- transformations
-    "transform._recursively_get_all_users::list(direct_users.get(node, set()))": _BFS,
-    "transform._recursively_get_all_users::list(users_to_visit)": _BFS,
     "transform.metadata.AxesTagsEquationCollector.record_equations_from_axes_tags::for tag in axis.tags_of_type(self.tag_t)":
         "mints variable names internal to the unification; the solution is a "
         "mapping to sets of tags",
 }
+
+
+# Functions reviewed as a whole: they compute a set-valued closure (worklist
+# over a graph), so the order in which the worklist is filled and drained cannot
+# be observed: the visited *set* is the reachable set whatever the order.  The
+# review holds for any way of writing the loop as long as -- checked by form on
+# every run -- every return hands out a freshly built set/frozenset, nothing is
+# yielded, and only local names are written.
+SET_CLOSURES = {
+    "transform._recursively_get_all_users":
+        "reachable-set computation over the users graph; returns frozenset(...)",
+}
+
+
+def returns_only_sets(fd):
+    import ast
+    params = {a.arg for a in fd.args.args + fd.args.kwonlyargs + fd.args.posonlyargs}
+    rets = 0
+    for n in ast.walk(fd):
+        if isinstance(n, (ast.Yield, ast.YieldFrom, ast.Global, ast.Nonlocal)):
+            return False
+        if isinstance(n, ast.Return):
+            rets += 1
+            v = n.value
+            if not (isinstance(v, ast.SetComp) or (
+                    isinstance(v, ast.Call) and isinstance(v.func, ast.Name)
+                    and v.func.id in ("set", "frozenset"))):
+                return False
+        if isinstance(n, (ast.Attribute, ast.Subscript)) and isinstance(
+                n.ctx, (ast.Store, ast.Del)):
+            return False
+        if isinstance(n, ast.Call) and isinstance(n.func, ast.Attribute) \
+                and isinstance(n.func.value, ast.Name) and n.func.value.id in params \
+                and n.func.attr in ("append", "extend", "insert", "add", "update", "pop",
+                                    "remove", "discard", "clear", "setdefault", "sort"):
+            return False
+    return rets > 0
 
 
 # --- lookup that survives local renames -------------------------------------
@@ -86,6 +121,11 @@ class Reviewed:
         return self._by_module
 
     def lookup(self, site):
+        if site.func in SET_CLOSURES and self.m is not None:
+            fd = self.m.enclosing_function(site.node)
+            if fd is not None and returns_only_sets(fd):
+                self.matched.add(site.func)
+                return SET_CLOSURES[site.func]
         text = _alpha(site.stmt_text)
         nk = site.func + "::" + text
         entries = _NORM.get(nk, [])
